@@ -36,6 +36,10 @@ type c19Chan struct {
 	ibase, irate     int32
 	bw               uint64 // local channels: bandwidth hint
 	bwKnown          bool
+	// reference quantities (exact arithmetic), filled in by c19UnifierInputs
+	amt     uint64 // amount the channel has to carry
+	nodeFee int64  // outbound fee on amt + capped inbound fee
+	inRange bool   // min_htlc <= amt <= max_htlc, amt <= capacity
 }
 
 // c19Hints is a bandwidthHints fake: a fixed table channel -> (bandwidth, known).
@@ -141,10 +145,7 @@ func c19UnifierConfig() {
 	vOverflow("github.com/lightningnetwork/lnd/routing.c19NodeFee")
 	vOverflow("github.com/lightningnetwork/lnd/routing.c19InRange")
 	vMerge("(*github.com/lightningnetwork/lnd/routing.unifiedEdge).amtInRange")
-	vMerge("github.com/lightningnetwork/lnd/routing.calcCappedInboundFee")
 	vMerge("github.com/lightningnetwork/lnd/routing.c19InRange")
-	vMerge("github.com/lightningnetwork/lnd/routing.c19ChanAmt")
-	vMerge("github.com/lightningnetwork/lnd/routing.c19NodeFee")
 	vAssumption("unifier: netAmtReceived <= 20 BTC (amount <= 10 BTC plus its outbound fee), nextOutFee <= netAmtReceived (findPath: netAmountReceived = amountToSend + outboundFee), fee_base_msat < 2^32, fee rate <= 1e6 ppm, |inbound fee rate| <= C19_INRATE ppm, inbound base any int32, min/max HTLC any uint64, capacity 0 (unknown) .. 21e6 BTC, bandwidth hint any uint64 or unknown, not a custom-HTLC payment")
 }
 
@@ -160,6 +161,14 @@ func c19UnifierInputs(n int) ([]c19Chan, *edgeUnifier, uint64, uint64) {
 	nextOut := vU64("nextOutFee")
 	vAssume(net <= 2*c19MaxChan)
 	vAssume(nextOut <= net)
+	// The reference quantities are computed before the unit runs: their
+	// exactness obligations (no wrap in net + inbound fee, ...) are then
+	// established facts about the very terms the unifier builds.
+	for j := range chans {
+		chans[j].amt = c19ChanAmt(chans[j], net, nextOut)
+		chans[j].nodeFee = c19NodeFee(chans[j], net, nextOut)
+		chans[j].inRange = c19InRange(chans[j], chans[j].amt)
+	}
 	return chans, u, net, nextOut
 }
 
@@ -197,7 +206,7 @@ func VerifC19UnifierNetwork() {
 		return
 	}
 	c := chans[j]
-	amt := c19ChanAmt(c, net, nextOut)
+	amt := c.amt
 	vObserve("chan", c.chanID)
 	vAssert(c19Same(r, c), "returned edge carries the fee policy, HTLC range and inbound fee of its channel")
 	vAssert(!c.disabled, "returned network edge is not disabled")
@@ -206,14 +215,14 @@ func VerifC19UnifierNetwork() {
 	vAssert(c.capSat == 0 || amt <= uint64(c.capSat)*1000, "amount carried is at most the channel's capacity")
 	// non-strict forwarding: the forwarding node may use any usable
 	// channel of the pair; the synthetic policy must cover each of them
-	fee := c19NodeFee(c, net, nextOut)
+	fee := c.nodeFee
 	vAssert(r.policy.TimeLockDelta >= c.delta, "synthetic time-lock delta covers the chosen channel")
 	isSome := false
 	for k := 0; k < n; k++ {
 		e := chans[k]
-		usable := !e.disabled && c19InRange(e, c19ChanAmt(e, net, nextOut))
+		usable := !e.disabled && e.inRange
 		vAssert(!usable || r.policy.TimeLockDelta >= e.delta, "synthetic time-lock delta is the maximum over the usable channels")
-		vAssert(!usable || fee >= c19NodeFee(e, net, nextOut), "chosen channel demands the maximum node fee over the usable channels")
+		vAssert(!usable || fee >= e.nodeFee, "chosen channel demands the maximum node fee over the usable channels")
 		isSome = isSome || (usable && r.policy.TimeLockDelta == e.delta)
 	}
 	vAssert(isSome, "synthetic time-lock delta is the delta of a usable channel")
@@ -243,7 +252,7 @@ func VerifC19UnifierLocal() {
 		return
 	}
 	c := chans[j]
-	amt := c19ChanAmt(c, net, nextOut)
+	amt := c.amt
 	vObserve("chan", c.chanID)
 	vAssert(c19Same(r, c) && r.policy.TimeLockDelta == c.delta, "returned local edge carries the policy and inbound fee of its channel")
 	vAssert(amt >= c.min, "local: amount sent is at least the channel's min_htlc")
